@@ -2,8 +2,8 @@
 # seedconfirm.sh <prop> <n>: confirm seeded change /tmp/wt/<prop>/_seed/m<n>.* in a fresh scratch worktree of /repo HEAD:
 #  demo fails with the change, passes without; affected package tests pass with the change. On success stores it in /verif/seeded/<prop>-m<n>/.
 export GOFLAGS=-mod=mod GOPROXY=off GOSUMDB=off GOTOOLCHAIN=local
-prop=$1; n=$2; src=/tmp/wt/$prop/_seed
-wt=/tmp/wt/confirm-$prop-$n
+prop=$1; n=$2; round=$3; src=/tmp/wt/$prop$round/_seed
+wt=/tmp/wt/confirm-$prop$round-$n
 git -C /repo worktree remove --force $wt >/dev/null 2>&1
 git -C /repo worktree add --detach -f $wt HEAD >/dev/null 2>&1 || { echo "worktree failed"; exit 2; }
 cd $wt
@@ -21,28 +21,28 @@ pkgname=$(grep -m1 '^package ' $demo | awk '{print $2}')
 echo "pkgdir=$pkgdir demo=$demo package=$pkgname"
 cp $demo $pkgdir/zz_seed_${n}_test.go
 echo "--- without change"
-go test -vet=off -count=1 -timeout 5m -run 'Seed' ./$pkgdir/ > /tmp/wt/confirm-$prop-$n.without.log 2>&1; rc0=$?
-tail -3 /tmp/wt/confirm-$prop-$n.without.log
+go test -vet=off -count=1 -timeout 5m -run 'Seed' ./$pkgdir/ > /tmp/wt/confirm-$prop$round-$n.without.log 2>&1; rc0=$?
+tail -3 /tmp/wt/confirm-$prop$round-$n.without.log
 git apply $src/m$n.diff || { echo "PATCH DOES NOT APPLY"; cd /; git -C /repo worktree remove --force $wt; exit 3; }
 echo "--- with change"
-go test -vet=off -count=1 -timeout 5m -run 'Seed' ./$pkgdir/ > /tmp/wt/confirm-$prop-$n.with.log 2>&1; rc1=$?
-tail -5 /tmp/wt/confirm-$prop-$n.with.log
+go test -vet=off -count=1 -timeout 5m -run 'Seed' ./$pkgdir/ > /tmp/wt/confirm-$prop$round-$n.with.log 2>&1; rc1=$?
+tail -5 /tmp/wt/confirm-$prop$round-$n.with.log
 rm $pkgdir/zz_seed_${n}_test.go
 echo "--- existing tests of changed packages with change"
 pk=$(git diff --name-only | xargs -n1 dirname | sort -u | sed 's|^|./|;s|$|/|' | tr '\n' ' ')
-go build ./... && go test -vet=off -count=1 -timeout 15m $pk > /tmp/wt/confirm-$prop-$n.suite.log 2>&1; rc2=$?
-tail -4 /tmp/wt/confirm-$prop-$n.suite.log
+go build ./... && go test -vet=off -count=1 -timeout 15m $pk > /tmp/wt/confirm-$prop$round-$n.suite.log 2>&1; rc2=$?
+tail -4 /tmp/wt/confirm-$prop$round-$n.suite.log
 cd /; git -C /repo worktree remove --force $wt
 echo "rc without=$rc0 with=$rc1 suite=$rc2"
 if [ $rc0 -eq 0 ] && [ $rc1 -ne 0 ] && [ $rc2 -eq 0 ]; then
-  d=/verif/seeded/$prop-m$n; mkdir -p $d
+  d=/verif/seeded/$prop-${round}m$n; mkdir -p $d
   cp $src/m$n.diff $d/patch.diff; cp $demo $d/demo_test.go.txt
   python3 - <<PY
 import json
 d=json.load(open("$src/m$n.json"))
 meta={"property":"$prop","summary":d.get("summary"),"needs_to_manifest":d.get("needs_to_manifest"),"files_changed":d.get("files_changed"),
  "demo":{"file":"demo_test.go.txt","place_in":"$pkgdir","as":"zz_seed_${n}_test.go","run":"go test -vet=off -count=1 -run Seed ./$pkgdir/"},
- "confirmed":{"how":"tools/seedconfirm.sh $prop $n in a scratch worktree of /repo HEAD","demo_without_change":"PASS","demo_with_change":"FAIL","package_tests_with_change":"PASS ($pk)"}}
+ "confirmed":{"how":"tools/seedconfirm.sh $prop $n $round in a scratch worktree of /repo HEAD","demo_without_change":"PASS","demo_with_change":"FAIL","package_tests_with_change":"PASS ($pk)"}}
 json.dump(meta,open("$d/meta.json","w"),indent=1)
 PY
   echo "CONFIRMED -> $d"
